@@ -45,9 +45,17 @@ type tnScenario struct {
 	PayloadHex string    `json:"own_payload_hex"`
 	Reads      []int     `json:"read_sizes,omitempty"`
 	NoModel    bool      `json:"no_model,omitempty"`
+	NoRead     bool      `json:"peer_never_reads,omitempty"` // the scripted peer never reads (tiny receive buffer)
+	CallRepeat int       `json:"call_repeat,omitempty"`      // the callsign is CallHex repeated this many times
 }
 
-func (s *tnScenario) call() []byte    { b, _ := hex.DecodeString(s.CallHex); return b }
+func (s *tnScenario) call() []byte {
+	b, _ := hex.DecodeString(s.CallHex)
+	if s.CallRepeat > 1 {
+		return bytes.Repeat(b, s.CallRepeat)
+	}
+	return b
+}
 func (s *tnScenario) pw() []byte      { b, _ := hex.DecodeString(s.PwHex); return b }
 func (s *tnScenario) payload() []byte { b, _ := hex.DecodeString(s.PayloadHex); return b }
 func (s *tnScenario) fill() {
@@ -247,6 +255,7 @@ func runClientTCP(sc *tnScenario) (res tnResult) {
 	}
 	defer ln.Close()
 	peer := newTCPPeer(sc.Chunks, sc.End, sc.EndAtMs)
+	peer.noRead = sc.NoRead
 	go peer.serve(ln)
 	defer func() {
 		peer.Release()
@@ -731,7 +740,7 @@ func tnGenPw(r *rand.Rand) []byte {
 }
 
 func tnGenPayload(r *rand.Rand, max int) []byte {
-	switch r.Intn(6) {
+	switch r.Intn(8) {
 	case 0:
 		return nil
 	case 1:
@@ -740,6 +749,9 @@ func tnGenPayload(r *rand.Rand, max int) []byte {
 		return []byte("Password :\rCallsign :\r") // payload that looks like prompts
 	case 3:
 		return []byte{0, '\r', 0xff, '\n', 0x1a, 4}
+	case 4:
+		// first bytes a line-oriented login reader is tempted to swallow
+		return append([]byte([]string{"\n", "\r", "\r\n", "\n\n", "\x00", "\xff\xfb\x01", " ", "\t"}[r.Intn(8)]), tnRandBytes(r, r.Intn(20), false)...)
 	default:
 		return tnRandBytes(r, 1+r.Intn(max), false)
 	}
@@ -854,6 +866,12 @@ func genClientScenarios(r *rand.Rand, n int) []*tnScenario {
 			Chunks: []tnChunk{{At: 100 + tnMargin + 20, Data: []byte(tnCallProm)}, {At: 100 + tnMargin + 40, Data: []byte(tnPwProm)}}},
 		{Class: "garbage", CallHex: hx0(c), PwHex: hx0(p), Via: "timeout", DeadlineMs: 150, End: "silent",
 			Chunks: []tnChunk{{At: 0, Data: bytes.Repeat([]byte{0xff, 0xfd, 0x18}, 3000)}, {At: 20, Data: bytes.Repeat([]byte("x"), 9000)}}},
+	}
+	// a server that prompts but never reads what the dialler answers: the dialler's WRITE blocks once the
+	// socket buffers are full (16 MiB callsign), and the deadline must end that too
+	for _, v := range []string{"timeout", "ctx-deadline", "ctx-cancel"} {
+		fixed = append(fixed, &tnScenario{Class: "never-reads", CallHex: hx0([]byte("LA1B-LONG-CALLSIGN-0123456789ABC")), CallRepeat: 1 << 19, PwHex: hx0(p), Via: v, DeadlineMs: 250, End: "silent",
+			NoRead: true, NoModel: true, Chunks: []tnChunk{{At: 0, Data: []byte(tnCallProm)}, {At: 20, Data: []byte(tnPwProm)}}})
 	}
 	for _, s := range fixed {
 		add(s)
@@ -1282,6 +1300,13 @@ func init() {
 					obs["timing outlier under load, not confirmed on re-run"]++
 				}
 				r = &r2
+			}
+			if s.NoRead {
+				// the replies can never be delivered: the only prescribed outcome is an error by the deadline
+				if r.IsConn {
+					violate("C15:dial-succeeds-without-login", "dial returned a connection although the server never read the login replies: "+trunc(r.Impl, 200), s, r)
+				}
+				return
 			}
 			if ok {
 				expected := s.all()[payloadAt:]
